@@ -473,6 +473,10 @@ package godi
 //@   at before return#7 : assert[C10,C02] void_marker_stored_once: ncalls("scope.setInstance") == 1 && callarg("scope.setInstance", 0, 1) == descriptor
 //@   at before return#8 : assert[C15] no_results_stores_nothing: ncalls("scope.setInstance") == 0 && ncalls("scope.setAliasedInstance") == 0
 //@   at before return#9 : assert[C15] bad_result_object_stores_nothing: ncalls("scope.setInstance") == 0 && ncalls("scope.setAliasedInstance") == 0
+// C10 'every instance ... is closed exactly once ... secondary outputs of multi-output constructors': an object that one invocation
+// returns under two outputs is still one instance: it is handed to the disposal tracking (setInstance) once
+//@   at before call s.setInstance#2 : assert[C10] an_object_is_tracked_once_per_invocation: forall c int :: 0 <= c && c < ncalls("scope.setInstance") ==> callarg("scope.setInstance", c, 3) != value
+//@   at before call s.setInstance#3 : assert[C10] an_object_is_tracked_once_per_invocation_multi_return: forall c int :: 0 <= c && c < ncalls("scope.setInstance") ==> callarg("scope.setInstance", c, 3) != value
 //@   ghost ownSeen bool
 //@   ghost ownVal any
 //@   at before call s.setInstance#2 : ghost ownVal := ite(regDescriptor == descriptor, value, ownVal)
